@@ -56,6 +56,19 @@ def _with_regime(store, rg):
 
 def subharnesses(tier):
     subs = []
+    # symbolic capacities / demands for the two most telling stores
+    for sname, store in _stores(tier):
+        if sname != 'r0_1' and tier == 'quick':
+            continue
+        for ev in ([] if tier == 'quick' else EVENTS[1:]):
+            spec = dict(store, nservers=2, events=[ev], crash_in='cycle',
+                        regime='sym')
+            subs.append(('%s-sym-%s-crash_in_cycle' % (sname, '_'.join(
+                str(x) for x in ev if not isinstance(x, (list, dict)))),
+                spec))
+        spec = dict(store, nservers=2, events=[], crash_in='init',
+                    regime='sym')
+        subs.append(('%s-sym-crash_in_init' % sname, spec))
     for sname, store in _stores(tier):
         for rg in REGIMES:
             st = _with_regime(store, rg)
